@@ -287,7 +287,8 @@ class SReal:
     """Exact symbolic real: canonical rational function over Q in the ctx's gens."""
 
     __slots__ = ("f", "nn")
-    __array_ufunc__ = None  # let ndarray ops defer to our reflected methods -> object arrays
+    # no __array_ufunc__ / __array_priority__: numpy treats SReal as an object scalar, so
+    # `ndarray <op> SReal` (also in-place) runs elementwise through the reflected methods
 
     def __init__(self, f, nn=False):
         self.f = f
